@@ -31,6 +31,24 @@ CHECKS = {
  "C07": ("model_checking", "stateless deviation-bounded exploration of all schedules; deadlock/livelock/spurious-error detection",
    "same executions as C06: unfinished tasks with no enabled action = deadlock, step budget exceeded = livelock, Err from a valid call under a fault-free backend = spurious failure",
    "as C06", "5 C07"),
+ "C08": ("model_checking", "explicit-state BFS over allocator/guest histories through the allocator hook + schedule exploration of concurrent allocators; ownership derived by the independent checker",
+   "every history of allocate(n)/free(run)/write/discard/flush/reopen up to the depth bound from fragmented, empty and populated images; after every transition: handed-out clusters were free, held runs counted once, nothing under-counted / doubly referenced / leaked; concurrent allocators get disjoint runs under every schedule within the deviation bound; write/discard cycles do not grow the host file",
+   "hook H3 forwards allocate_clusters/free_clusters unchanged; SpecKit checker", "5 C08"),
+ "C10": ("model_checking", "explicit-state BFS over COW histories on backing-chain and compressed images",
+   "every history of partial/straddling writes, reads, discards, flush, reopen up to the depth bound over clusters provided by a backing chain (equal/shorter/longer/depth 2) or stored compressed (inside, straddling, ending on a host cluster boundary): RefDisk sweep, reopen, strict checker, read-only devices see reads only",
+   "SpecKit builder images; as C01", "5 C10"),
+ "C11": ("model_checking", "explicit-state BFS with a ~95-pair discard(offset,len) alphabet over all cluster states",
+   "every history up to the depth bound of boundary-valued discards, writes, flush, reopen on images with data / zero / zero+prealloc / compressed / backing / unallocated clusters, hole punch supported and unsupported: every discard Ok, RefDisk discard semantics, reopen, strict checker",
+   "as C01", "5 C11"),
+ "C13": ("exploration", "complete enumeration of the boundary product of (offset, length, block size, device mode, operation)",
+   "6.9k calls, one fresh device each: result vs the statement, no modifying request and unchanged content on Err, no panic with overflow checks on",
+   "harness built with overflow-checks", "5 C13"),
+ "C15": ("exploration", "complete enumeration of finite / boundary codec domains against an independent packer and decoder",
+   "refcount get/set raw bytes for every width x index x value x background; L2 entry classes for every cluster size; guest/host index arithmetic for every geometry around every boundary up to 2^56; header parse/serialise round trips v2/v3",
+   "SpecKit packer/decoder", "5 C15"),
+ "C17": ("fault_enumeration", "exhaustive single-fault (and pair-fault) injection over the request stream of every history",
+   "for every history of the reduced alphabet at the depth bound: one run per backend request failing (all pairs in thorough), per-kind failures, hole punch unsupported; the call reports Err, the device stays usable, a healed flush_meta succeeds and the reopened image holds every acknowledged write with no under-count",
+   "failed request has no effect; backend heals completely", "5 C17"),
 }
 NA = {}
 def main():
